@@ -117,6 +117,13 @@ def ndarray_ok(cls, attr):
         return False
 
 
+def gen_name(rng):
+    """Member names: mostly obs<k>; sometimes digit-only channel numbers ('1', '2', ...) which must stay names, not indices."""
+    if rng.random() < 0.25:
+        return str(rng.randrange(4))
+    return "obs%d" % rng.randrange(7)
+
+
 def gen_scalar(rng, attr):
     k = VAL[attr]
     if k == "engine":
@@ -135,6 +142,8 @@ def gen_scalar(rng, attr):
             # along the z axis (either way, any length): the deprecated observers choose their 'up' vector by looking at it
             v = rng.choice([[0.0, 0.0, 1.0], [0.0, 0.0, -1.0], [0.0, 0.0, 2.0], [0.0, 0.0, -0.5], [0.0, 1.0, 0.0]])
         return {"vector": v}
+    if rng.random() < 0.12:
+        return k[1] if rng.random() < 0.6 else k[2]          # the ends of the legal range (0, 0.0, 1 ... are values too)
     if k[0] == "int":
         return rng.randint(k[1], k[2])
     return round(rng.uniform(k[1], k[2]), 6)
@@ -182,11 +191,11 @@ class GroupMachine(Machine):
                 elif u < 0.62:
                     ops.append({"op": "slice", "a": rng.randint(-3, 4), "b": rng.randint(-3, 6)})
                 elif u < 0.75:
-                    ops.append({"op": "byname", "name": "obs%d" % rng.randrange(7)})
+                    ops.append({"op": "byname", "name": gen_name(rng)})
                 elif u < 0.85:
                     ops.append({"op": "addwrong", "how": rng.choice(["add", "setobs"]), "pos": rng.randrange(6)})
                 elif u < 0.92:
-                    ops.append({"op": "rename", "i": rng.randrange(6), "name": "obs%d" % rng.randrange(7)})
+                    ops.append({"op": "rename", "i": rng.randrange(6), "name": gen_name(rng)})
                 else:
                     ops.append({"op": "observe"})
             return {"config": cfg, "ops": ops}
@@ -211,9 +220,9 @@ class GroupMachine(Machine):
                 ops.append({"op": "set", "attr": a, "kind": rng.choice(kinds), "values": [gen_scalar(rng, a) for _ in range(8)]})
             elif u < 0.66:
                 ops.append({"op": "names", "kind": rng.choice(["list", "tuple", "short", "long", "str"]),
-                            "values": ["obs%d" % rng.randrange(7) for _ in range(8)]})
+                            "values": [gen_name(rng) for _ in range(8)]})
             elif u < 0.69:
-                ops.append({"op": "rename", "i": rng.randrange(6), "name": "obs%d" % rng.randrange(7)})
+                ops.append({"op": "rename", "i": rng.randrange(6), "name": gen_name(rng)})
             elif u < 0.70:
                 # somebody else re-parents a member (another node adopts it); re-assigning the membership must bring it back
                 if rng.random() < 0.5:
@@ -229,9 +238,9 @@ class GroupMachine(Machine):
             elif u < 0.80:
                 ops.append({"op": "slice", "a": rng.randint(-3, 4), "b": rng.randint(-3, 6)})
             elif u < 0.86:
-                ops.append({"op": "byname", "name": "obs%d" % rng.randrange(7)})
+                ops.append({"op": "byname", "name": gen_name(rng)})
             elif u < 0.885:
-                ops.append({"op": "addwrong", "how": rng.choice(["add", "setobs", "setobs-str"]), "pos": rng.randrange(6)})
+                ops.append({"op": "addwrong", "how": rng.choice(["add", "setobs", "setobs-tuple", "setobs-str"]), "pos": rng.randrange(6)})
             elif u < 0.90:
                 ops.append({"op": "setobs.cyclic", "i": rng.randrange(6), "pos": rng.randrange(6)})
             elif u < 0.93:
@@ -537,9 +546,11 @@ class GroupMachine(Machine):
             try:
                 if how == "add":
                     (g.add_foil_detector if c.is_cam else g.add_observer)(c.wrong)
-                elif how == "setobs":
+                elif how in ("setobs", "setobs-tuple"):
                     val = [c.pool[i] for i in c.members]
                     val.insert(op.get("pos", len(val)) % (len(val) + 1), c.wrong)     # the intruder at any position
+                    if how == "setobs-tuple":
+                        val = tuple(val)            # e.g. another group's .observers handed over as it is
                     if c.is_cam:
                         g.foil_detectors = val
                     else:
@@ -552,7 +563,7 @@ class GroupMachine(Machine):
             else:
                 raise Violation("wrong-type-accepted", c.gname, "%s of an observer of type %s was accepted" % (how, type(c.wrong).__name__))
             env.fault_armed("reject-wrong-type")
-            if c.wrong.parent is g and how != "setobs":
+            if c.wrong.parent is g and how not in ("setobs", "setobs-tuple"):
                 raise Violation("wrong-type-accepted", c.gname, "refused observer was nevertheless re-parented to the group")
             detail = how
         elif k == "set":
